@@ -205,7 +205,7 @@ func runProperty(p *Program, id, tier string, seed int, findings []*finding) *pr
 		res.ev.Level = "other"
 		res.ev.Coverage["explanation"] = "lock discipline checked function by function (guarded_by / immutable-after-init obligations, critical-section dominance); schedules are not explored, so this is not a proof of the property's quantifier over interleavings"
 	}
-	opts := solveOpts{timeout: 10 * time.Second}
+	opts := solveOpts{timeout: 30 * time.Second}
 	if tier == "thorough" {
 		opts.timeout = 60 * time.Second
 		opts.all = true
